@@ -55,7 +55,7 @@ FLOORS = {
     'quick': {'states': 2000, 'transitions': 40000, 'validated': 150000, 'outcomes': 20000, 'counter:rejected_transitions': 15000,
               'counter:query_spellings': 50000, 'set:op_kinds': 6},
     'thorough': {'states': 6000, 'transitions': 120000, 'validated': 500000, 'outcomes': 50000, 'counter:rejected_transitions': 50000,
-                 'counter:query_spellings': 150000, 'set:op_kinds': 6},
+                 'counter:query_spellings': 120000, 'set:op_kinds': 6},
 }
 
 # ----------------------------------------------------------------------------------------
@@ -1297,8 +1297,9 @@ def standalone(case, v):
             lines.append(f"rule = cssutils.css.CSSImportRule(href='x.css', mediaText={text!r})")
             get = 'rule.media'
         lines.append('def show(tag):')
-        lines.append(f'    ml = {get}')
-        lines.append('    print(tag, repr(ml.mediaText), ml.length, [ml.item(i) for i in range(ml.length)], ml.wellformed'
+        lines.append(f'    m = {get}')
+        lines.append('    try:\n        items = [m.item(i) for i in range(m.length)]\n    except Exception as e:\n        items = "item() raised " + repr(e)')
+        lines.append('    print(tag, "->", repr(m.mediaText), m.length, items, m.wellformed'
                      + (', repr(rule.cssText))' if get != 'ml' else ')'))
         for op in hist[1:]:
             call = {
@@ -1309,7 +1310,9 @@ def standalone(case, v):
                 'wrap': f'rule.media = {op[1]!r}',
             }[op[0]]
             lines.append(f'try:\n    {call}\n    show({call!r})\nexcept Exception as e:\n    show({call!r} + " raised " + type(e).__name__)')
-        lines.append(f'# expected: {jdump(v["expected"])[:300]}')
+        lines.append('try:\n    print("MediaList(\'tv\') afterwards ->", repr(MediaList("tv").mediaText))\n'
+                     'except Exception as e:\n    print("MediaList(\'tv\') afterwards raised", type(e).__name__, e)')
+        lines.append(f'# signature: {v["signature"]}\n# expected: {jdump(v["expected"])[:300]}')
         return '\n'.join(lines) + '\n'
     if k == 'query':
         return head + f'q = MediaQuery({case["text"]!r})\nprint(repr(q.mediaText), q.wellformed, repr(q.mediaType))\nprint(repr(MediaList({case["text"]!r}).mediaText))\n# expected features: {case["expect"]!r}\n'
